@@ -1,5 +1,5 @@
 (* C18 - Descendant traversal is bounded: deep/cyclic data raises JSONPathRecursionError. *)
-From JP Require Import Base.Json Model.Descent Model.Eval Proofs.EvalProofs Proofs.DescentProofs Gen.Env Proofs.GenTies.
+From JP Require Import Base.Json Model.Descent Model.Eval Proofs.EvalProofs Proofs.DescentProofs Gen.Env Proofs.TieEnv.
 
 (* Data as a finite graph of cells (Python values may be self-referential).  budget = max_recursion_depth.
    The traversal completes exactly when no chain of more than `limit` nested containers starts at the root ... *)
